@@ -82,6 +82,10 @@ func (w *gwriter) topicPartitions(path string, nTopics, nParts int) {
 	}
 }
 
+// groupEntries: protocol.Unmarshal as Client.JoinGroup / Client.SyncGroup call it, and Client.DescribeGroups, which decodes
+// the same values inside its response with readers of its own.
+var groupEntries = []string{"unmarshal", "describegroups"}
+
 // groupFrames builds consumer protocol v1 values: small ones and ones whose
 // arrays exceed the decoder's 512-element preallocation.
 func groupFrames() []*corpusFrame {
@@ -125,7 +129,9 @@ func TestGroupMetadata(t *testing.T) {
 	go func() {
 		defer close(jobs)
 		for _, cf := range corpus {
-			jobs <- job{c: mutCase{API: cf.API.Name, Key: cf.API.Key, Version: 1, Entry: "unmarshal", Variant: cf.Variant, Field: -1, Class: "unmutated", Splice: "inplace", Supply: "exact", FrameLen: len(cf.Frame)}, stream: cf.Frame}
+			for _, entry := range groupEntries {
+				jobs <- job{c: mutCase{API: cf.API.Name, Key: cf.API.Key, Version: 1, Entry: entry, Variant: cf.Variant, Field: -1, Class: "unmutated", Splice: "inplace", Supply: "exact", FrameLen: len(cf.Frame)}, stream: cf.Frame}
+			}
 		}
 	}()
 	dispatch(p, jobs, func(a answer) {
@@ -159,9 +165,11 @@ func TestGroupMetadata(t *testing.T) {
 						if supply == "prefix" && len(stream) == len(fr) {
 							continue
 						}
-						c := mutCase{API: cf.API.Name, Key: cf.API.Key, Version: 1, Entry: "unmarshal", Variant: cf.Variant, Field: fi, Path: f.Path, Kind: f.Kind, Off: f.Off, True: f.Value,
-							Class: h.Class, Raw: h.Raw, Splice: "inplace", Supply: supply, FrameLen: len(fr)}
-						jobs <- job{c: withStream(c, stream), stream: stream}
+						for _, entry := range groupEntries {
+							c := mutCase{API: cf.API.Name, Key: cf.API.Key, Version: 1, Entry: entry, Variant: cf.Variant, Field: fi, Path: f.Path, Kind: f.Kind, Off: f.Off, True: f.Value,
+								Class: h.Class, Raw: h.Raw, Splice: "inplace", Supply: supply, FrameLen: len(fr)}
+							jobs <- job{c: withStream(c, stream), stream: stream}
+						}
 					}
 				}
 			}
@@ -180,7 +188,7 @@ func TestGroupMetadata(t *testing.T) {
 			return
 		}
 		ev.Case(fmt.Sprintf("%s/%d/%s/%s", c.API, c.Version, c.Kind, c.Class), a.r.Outcome != "decoded",
-			"kind:"+c.Kind, "val:"+c.Class, "supply:"+c.Supply, "entry:unmarshal", "out:"+a.r.Outcome, "corpus:"+c.Variant)
+			"kind:"+c.Kind, "val:"+c.Class, "supply:"+c.Supply, "entry:"+c.Entry, "out:"+a.r.Outcome, "corpus:"+c.Variant)
 		ev.Count("api_"+c.API, 1)
 	})
 	ev.Count("group_metadata_frames", frames)
